@@ -202,6 +202,12 @@ func TestWorker(t *testing.T) {
 	}
 	if len(spec.Replays) > 0 {
 		for _, rp := range spec.Replays {
+			if engine.Poisoned.Load() {
+				// an earlier candidate left tasks blocked for ever: this process is done, the
+				// remaining candidates count as not reproducing
+				res.Batch = append(res.Batch, BatchResult{})
+				continue
+			}
 			out := engine.RunInBubble(t, rp.Plan, rp.Schedule, prof.Arm)
 			br := BatchResult{}
 			if out != nil {
@@ -224,7 +230,7 @@ func TestWorker(t *testing.T) {
 	}
 	if spec.Replay != nil {
 		one(-1, spec.Replay.Plan, spec.Replay.Schedule)
-		for i := 1; i < spec.Repeat && len(res.Violations) == 0; i++ {
+		for i := 1; i < spec.Repeat && len(res.Violations) == 0 && !engine.Poisoned.Load(); i++ {
 			one(-1, spec.Replay.Plan, spec.Replay.Schedule)
 		}
 		res.Probes["replay-repetitions"] = res.Runs
@@ -244,7 +250,7 @@ func TestWorker(t *testing.T) {
 			continue
 		}
 		one(idx, plan, nil)
-		if res.Error != "" {
+		if res.Error != "" || engine.Poisoned.Load() {
 			break
 		}
 	}
